@@ -531,6 +531,28 @@ class Prims:
                 pass
         return out
 
+    def _fold_locals(self, e, fn, sc, depth=0):
+        """try_fold, with locals that are bound once to something that folds (named limits computed from other named constants) spelled out"""
+        ok, k = try_fold(self.P, e, fn, sc)
+        if ok or depth > 4:
+            return ok, k
+        import copy as _copy
+        A_ = self.A
+
+        class T(ast.NodeTransformer):
+            def visit_Name(s_, node):
+                if isinstance(node.ctx, ast.Load):
+                    ds = defs_of(A_, fn, node.id)
+                    if len(ds) == 1 and getattr(ds[0], "value", None) is not None and isinstance(ds[0], ast.Assign):
+                        ok2, k2 = self._fold_locals(ds[0].value, fn, sc, depth + 1)
+                        if ok2 and isinstance(k2, (int, str, bytes)) and not isinstance(k2, bool):
+                            return ast.copy_location(ast.Constant(value=k2), node)
+                return node
+        e2 = T().visit(_copy.deepcopy(e))
+        if ast.dump(e2) == ast.dump(e):
+            return False, None
+        return try_fold(self.P, ast.fix_missing_locations(e2), fn, sc)
+
     def local_name_bounds(self, node, name, fn, sc):
         """(lo, hi) implied for local int `name` by dominating comparisons with constants."""
         g = self.A.cfg(fn, sc)
@@ -540,10 +562,10 @@ class Prims:
                 if f.kind != "cmp":
                     continue
                 if norm(f.left) == name:
-                    ok, k = try_fold(self.P, f.right, fn, sc)
+                    ok, k = self._fold_locals(f.right, fn, sc)
                     op = f.op
                 elif norm(f.right) == name:
-                    ok, k = try_fold(self.P, f.left, fn, sc)
+                    ok, k = self._fold_locals(f.left, fn, sc)
                     op = {"<": ">", "<=": ">=", ">": "<", ">=": "<=", "==": "=="}.get(f.op)
                 else:
                     continue
